@@ -177,23 +177,23 @@ theorem gen_GetTileIndex_eq (h x y : Nat) (hh : h < W32)
     (hfit : ((x / 32) * h + y) * 32 + x % 32 < W64) : gen_GetTileIndex_translated = true →
     gen_GetTileIndex (h : Int) (x : Int) (y : Int) = (tileIndexN h x y : Nat) := by
   gen_guard =>
+  -- spelling-independent: x = 32q + r; collapse the nested `% 2^64` to the outermost one; the polynomial identity is `grind`'s
   unfold W32 W64 at *
-  have r : x % 32 < 32 := Nat.mod_lt _ (by omega)
-  unfold gen_GetTileIndex tileIndexN
-  have e31 : (castU 64 (31 : Int)).toNat = 31 := by decide
-  have e5 : ((5 : Int)).toNat = 5 := by decide
-  have e32 : castU 64 (32 : Int) = ((32 : Nat) : Int) := by decide
-  simp only [Int.toNat_natCast, e31, e5, e32]
-  rw [Nat.and_two_pow_sub_one_eq_mod x 5]
-  have hxq : (x : Int) / 2 ^ 5 = ((x / 32 : Nat) : Int) := by omega
-  rw [hxq, castU_nat h (by omega)]
-  generalize hq : x / 32 = q at *
-  generalize hr : x % 32 = r' at *
-  have b1 : q * h < 2 ^ 64 := by omega
-  rw [← Int.natCast_mul, castU_nat _ b1, ← Int.natCast_add, castU_nat _ (by omega),
-      ← Int.natCast_mul, castU_nat _ (by omega)]
-  show castU 64 (((((q * h + y) * 32 : Nat) : Int)) + ((r' : Nat) : Int)) = _
-  rw [← Int.natCast_add, castU_nat _ (by omega)]
+  obtain ⟨q, r, hr, rfl⟩ : ∃ q r, r < 32 ∧ x = 32 * q + r := ⟨x / 32, x % 32, Nat.mod_lt _ (by omega), by omega⟩
+  have hq : (32 * q + r) / 32 = q := by omega
+  have hm : (32 * q + r) % 32 = r := by omega
+  have e1 : ((32 * q + r : Nat) : Int) / 32 = (q : Int) := by omega
+  have e2 : ((32 * q + r : Nat) : Int) % 32 = (r : Int) := by omega
+  have e3 : (32 * q + r) &&& 31 = r := by rw [Nat.and_two_pow_sub_one_eq_mod _ 5]; omega
+  unfold tileIndexN
+  rw [hq, hm] at hfit ⊢
+  unfold gen_GetTileIndex castU
+  simp only [Int.reducePow, Int.reduceMod, Int.reduceToNat, Int.toNat_natCast, e1, e2, e3, Int.ofNat_eq_natCast]
+  simp only [emod_mul_l, emod_mul_r, emod_add_l, emod_add_r]
+  have hT : (((q * h + y) * 32 + r : Nat) : Int) % 18446744073709551616 = ((q * h + y) * 32 + r : Nat) :=
+    Int.emod_eq_of_lt (Int.natCast_nonneg _) (by omega)
+  refine Eq.trans ?_ hT
+  congr 1 <;> (push_cast; grind)
 
 open Op2.Gen.Layout in
 /-- the bit-fields of `Tile` sit where the model's accessors read them, and the cell-type field is unsigned -/
